@@ -1,8 +1,8 @@
 (* C16 — Reflecting and white surfaces become boundary conditions on the right
    surfaces.  Only restatements; proofs are in C16/Proofs.v. *)
 From Coq Require Import List NArith ZArith Bool String Ascii Lia Reals.
-From T4V Require Import Base.Str Base.Scalar C16.Model C16.Proofs C16.Trcl C16.LinkC13.
-From T4V Require C13.Model.
+From T4V Require Import Base.Str Base.Scalar C16.Model C16.Proofs C16.Trcl C16.LinkC13 C16.LinkCells.
+From T4V Require C13.Model C01.Model C01.Spec C01.ProofsTree C01.ProofsPrune C16.LinkC01.
 Import ListNotations.
 Open Scope string_scope.
 
@@ -626,4 +626,115 @@ Proof.
   split; [eexists; eexists; vm_compute; reflexivity|].
   split; [eexists; eexists; split; [vm_compute; reflexivity|left; reflexivity]|].
   intros [ids [left H]]. vm_compute in H. discriminate.
+Qed.
+
+(* ======================================================================== *)
+(* Linked with C01 and C13: the main statement from a premise on the CELL CARDS.
+   C01.Model.convert_cells is C01's model of pot_convert and of the final loop of
+   construct_volume_t4 (cell trees over MCNP surfaces, with unions, complements
+   eliminated, cell references: whatever the cell cards and the FILL development
+   give), C01.Model.prune the renumbering and the two pruning passes; the
+   renumbering is C13's.  [bounds_cell k c]: c is a converted cell and there are
+   two points - sense assignments of the TRIPOLI-4 surfaces that are constant on
+   merged surfaces and consistent on the helper planes, with the cells that hold
+   them as the CARDS read (C01.Spec.mden) - whose senses differ only on k and the
+   surfaces merged with it, one inside c, one outside.  That is "the flagged
+   surface bounds a converted cell that survives", said on the cards.
+   Conclusion: the representative of k is used by a volume of the pruned table
+   (so its SURF line is written), the block has exactly one entry for it, of the
+   kind of the flag, and it carries the flagged surface's descriptor over the
+   reals.  (C01_cells and prune_sound carry the denotation from the cards to
+   the written table; a table that does not mention a surface cannot depend on
+   its sense.) *)
+Theorem C16_bc_designates_present_same_locus_cells_linked :
+  forall (t : table) (surfs : list (Z * C13.Model.desc R)) (skip : bool),
+  NoDup (map fst surfs) ->
+  (forall k d, In (k, d) surfs -> (0 < k)%Z) ->
+  (forall k e, In (k, e) t -> e_flag e <> "" -> In (Z.of_N k) (map fst surfs)) ->
+  forall (cells : C01.Model.dict C01.Model.cell) (matching : C01.Model.dict (list Z))
+         (u0 u1 : Z) (fuel : nat) (todo : list Z) (cnt0 : Z)
+         (s' : C01.Model.st) (d' : C01.Model.dict C01.Model.vol),
+  (0 < u0)%Z -> (0 < u1)%Z -> NoDup todo -> (forall k, In k todo -> (k <= cnt0)%Z) ->
+  C01.Model.convert_cells fuel cells matching u0 u1 todo (C01.Model.mkSt cnt0 [] [] [])
+    = C01.Model.Ok s' ->
+  C01.Model.prune u0 u1 (C16.LinkC01.rn_of surfs skip) (C01.Model.vols s') = C01.Model.Ok d' ->
+  forall (l bcs : list (kind * N)),
+  bc_entries t = Ok l ->
+  merge_gen (rep13 (ren_of RS skip surfs)) (map Z.to_N (C16.LinkC01.surf_ids d')) l [] = Ok bcs ->
+  forall k e c, In (k, e) t -> (e_flag e = "*" \/ e_flag e = "+") ->
+  C16.LinkC01.bounds_cell surfs skip cells matching u0 u1 todo (Z.of_N k) c ->
+  let k' := rep13 (ren_of RS skip surfs) k in
+  In (Z.of_N k') (C16.LinkC01.surf_ids d') /\
+  In (kind_of (e_flag e), k') bcs /\ count_key k' bcs = 1%nat /\
+  exists d, In (Z.of_N k, d) surfs /\ In (Z.of_N k', d) (kept surfs skip).
+Proof.
+  intros t surfs skip Hns Hpos Hknown cells matching u0 u1 fuel todo cnt0 s' d'
+         H0 H1 Hnd Hle Hconv Hprune l bcs Hl Hb k e c Hin Hf Hbc.
+  exact (cells_linked_designates t surfs skip Hns Hpos Hknown cells matching u0 u1 fuel todo cnt0
+           s' d' H0 H1 Hnd Hle Hconv Hprune l bcs Hl Hb k e c Hin Hf Hbc).
+Qed.
+Print Assumptions C16_bc_designates_present_same_locus_cells_linked.
+
+(* non-vacuity: the table and surfaces of C16_example_linked (the reflecting
+   surfaces 2 and 3 coincide),
+   one cell card "-1 2" (cell 1), converted by C01's model.  The two points:
+   senses true on {2, 3} resp. nowhere; the first is in the cell, the second not;
+   they differ only on 2 and 3, which are merged.  Every hypothesis of the
+   theorem holds for k = 2 and for k = 3 alike *)
+Definition ex_cells : C01.Model.dict C01.Model.cell :=
+  [(1%Z, (C01.Model.Node 0 C01.Model.OInter
+            [C01.Model.Leaf ((-1)%Z, None); C01.Model.Leaf (2%Z, None)], []))].
+Definition ex_matching : C01.Model.dict (list Z) :=
+  [(1, [1]); (2, [2]); (3, [3]); (4, [4])]%Z.
+Definition ex_s1 (z : Z) : bool := Z.eqb z 2 || Z.eqb z 3.
+Definition ex_s2 (z : Z) : bool := false.
+
+Example C16_example_cells_linked :
+  exists s' d' l,
+    C01.Model.convert_cells 5 ex_cells ex_matching 8 9 [1%Z] (C01.Model.mkSt 1 [] [] [])
+      = C01.Model.Ok s' /\
+    C01.Model.prune 8 9 (C16.LinkC01.rn_of ex_surfs false) (C01.Model.vols s') = C01.Model.Ok d' /\
+    C16.LinkC01.surf_ids d' = [2; 1]%Z /\
+    bc_entries ex_table = Ok l /\
+    merge_gen (rep13 (ren_of RS false ex_surfs)) (map Z.to_N (C16.LinkC01.surf_ids d')) l [] =
+      Ok [(Reflection, 2%N)] /\
+    C16.LinkC01.bounds_cell ex_surfs false ex_cells ex_matching 8 9 [1%Z] 2 1 /\
+    C16.LinkC01.bounds_cell ex_surfs false ex_cells ex_matching 8 9 [1%Z] 3 1.
+Proof.
+  eexists. eexists. eexists.
+  split; [vm_compute; reflexivity|].
+  split; [vm_compute; reflexivity|].
+  split; [vm_compute; reflexivity|].
+  split; [vm_compute; reflexivity|].
+  split; [vm_compute; reflexivity|].
+  assert (Hpt : forall s, (s = ex_s1 \/ s = ex_s2) ->
+            C16.LinkC01.is_point ex_surfs false ex_cells ex_matching 8 9 s
+              (fun c => if Z.eqb c 1 then negb (s 1%Z) && s 2%Z else false)).
+  { intros s Hs. split; [|split].
+    - unfold C01.Spec.consistent. destruct Hs as [-> | ->]; cbn; intros H; discriminate.
+    - intros r Hr. vm_compute in Hr. inversion Hr; subst r. intros x y Hl. cbn in Hl.
+      repeat (match type of Hl with
+              | (if ?b then _ else _) = _ => destruct b eqn:?
+              end);
+        try discriminate; inversion Hl; subst;
+        repeat match goal with H : (_ =? _)%Z = true |- _ => apply Z.eqb_eq in H; subst end;
+        destruct Hs as [-> | ->]; reflexivity.
+    - intros c g orig Hl. cbn in Hl. destruct (c =? 1)%Z eqn:Ec; [|discriminate].
+      inversion Hl; subst g orig. apply Z.eqb_eq in Ec. subst c. split.
+      + cbn. repeat split; try lia; try discriminate;
+          intros ids Hi; cbn in Hi; inversion Hi; subst; repeat constructor; lia.
+      + destruct Hs as [-> | ->]; reflexivity. }
+  assert (Hag : forall k, (k = 2 \/ k = 3)%Z -> forall z,
+            C16.LinkC01.rpZ ex_surfs false z <> C16.LinkC01.rpZ ex_surfs false k ->
+            ex_s1 z = ex_s2 z).
+  { intros k Hk z Hz. unfold ex_s1, ex_s2.
+    destruct (Z.eqb z 2) eqn:E2; [apply Z.eqb_eq in E2; subst z; exfalso; apply Hz;
+      destruct Hk as [-> | ->]; vm_compute; reflexivity|].
+    destruct (Z.eqb z 3) eqn:E3; [apply Z.eqb_eq in E3; subst z; exfalso; apply Hz;
+      destruct Hk as [-> | ->]; vm_compute; reflexivity|]. reflexivity. }
+  split; (split; [left; reflexivity|];
+    eexists ex_s1, _, ex_s2, _;
+    split; [apply Hpt; left; reflexivity|];
+    split; [apply Hpt; right; reflexivity|];
+    split; [apply Hag; auto|]; split; reflexivity).
 Qed.
